@@ -28,7 +28,7 @@ CLAIM = {
             "funding_depth < min_funding_depth or closing_depth > 0, and every other method delegates to `inner` with "
             "its own arguments in order; (R5.4) the policy filter defaults to Error and policy_error returns Err "
             "unless a rule says Warn; (R5.5) no quantity compared with a SimplePolicy bound in policy/ was narrowed by a "
-            "truncating integer cast on the way (callee return values included). Does not decide arithmetic behaviour at u64 extremes beyond the presence of "
+            "truncating integer cast on the way (callee return values included). (R5.6) the bounds are evaluated on the whole supplied content: nothing drops or alters an HTLC, a balance or the feerate between the request and the validated CommitmentInfo2. Does not decide arithmetic behaviour at u64 extremes beyond the presence of "
             "checked operations.",
     "note": "non-permissive policy; estimate_feerate_per_kw / expected_commitment_tx_weight / htlc_*_tx_weight trusted "
             "by name; one live object per typed path",
@@ -52,6 +52,7 @@ def run(ctx):
     r53(ctx)
     r54(ctx)
     r55(ctx)
+    r_content(ctx)
 
 
 def r51(ctx):
@@ -539,3 +540,12 @@ def _depth_form(ctx, body, fv, e, env, depth):
             return x
         return subst(inner[0]), subst(inner[1])
     return None
+
+
+def r_content(ctx):
+    """the HTLC bounds of C05 (dust, count, in-flight value, expiry) are evaluated on the HTLC lists of the CommitmentInfo2; an HTLC dropped while that value is built escapes all of them"""
+    from rules import C04 as _c04
+    ctx.rule("R5.6", "the commitment content that is validated and recorded is the content the caller supplied: the info "
+                    "builders forward balances, both HTLC lists and the feerate unmodified and CommitmentInfo2::new only sorts "
+                    "(same obligations as the first part of C04 R4.3)")
+    _c04.content_passthrough(ctx, rid="R5.6")
